@@ -1,4 +1,12 @@
 // ---- prelude for node.rs slices ---------------------------------------------------------------
-use std::net::SocketAddr;
-use std::collections::BTreeMap;
+use crate::env::SocketAddr;
+use vcoll::BTreeMap;
+// `String` (ClusterMember::data_center) is the opaque data-centre name of this unit
+#[allow(non_camel_case_types)]
+type String = crate::env::DcName;
+impl vcoll::Havoc for ClusterMember {
+    fn havoc() -> Self {
+        panic!("vcoll: membership snapshots are concrete")
+    }
+}
 // ---- end of prelude ---------------------------------------------------------------------------
